@@ -31,7 +31,12 @@ RULE = ("stream box: every n in 1..6, start/stop in [-(n+2), n+2] or None, step 
         "combinations, thorough 400) x value draws, index level (shape + every source multi-index) and view level (shape + every "
         "element); stream single: view::slice(a, one slice) on 1-d arrays. "
         "non-trivial = a case with at least one integer bound or step; distinct = distinct case lines")
-THEOREM_STATUS = {"proved": [], "partial": [], "refuted": []}
+THEOREM_STATUS = {"proved": ["C05_slice_python_on_core", "C05_python_index_in_bounds", "C05_multi_axis",
+                             "C05_internal_slices_in_core", "C05_core_sound_on_box", "C05_core_coverage_on_box"],
+                  "partial": [],
+                  "refuted": ["C05_refuted_negative_start_open", "C05_refuted_start_past_end", "C05_refuted_stop_below_minus_n",
+                              "C05_refuted_crossed_bounds", "C05_refuted_open_start_negative_step",
+                              "C05_refuted_negative_step_start", "C05_refuted_on_box"]}
 ASSUMPTIONS = [
     "binary32: (float)s / step is taken as exact-ceiling for |s|, step <= 2^24 (argued in Slice.v, corresponded near the boundary); "
     "larger operands are outside the model (outcome LenInexact)",
@@ -41,8 +46,17 @@ ASSUMPTIONS = [
 
 
 def drivers(tier):
-    paths = gen_c05.write_drivers(tier)
-    out = {"ax": [(paths["ax"], "ndebug", ()), (paths["ax"], "asan", ())]}
+    """at most 4 compile jobs run at once (the specs of one key are built concurrently, keys one after the other).
+    A binary answers `unsupported` to the cases of the other TUs, so several TUs can share a key."""
+    p = gen_c05.write_drivers(tier)
+    nt = gen_c05.n_tus(tier)
+    out = {"a": [(p["ax"], "ndebug", ()), (p["ax"], "asan", ()), (p["dyn"], "ndebug", ()), (p["dyn"], "asan", ())]}
+    if tier == "quick":
+        out["m"] = [(p["mx%d" % t], "ndebug", ()) for t in range(nt)] + [(p["mx0"], "asan", ())]
+    else:
+        for g in range(0, nt, 4):
+            out["m%d" % (g // 4)] = [(p["mx%d" % t], "ndebug", ()) for t in range(g, min(nt, g + 4))]
+        out["ms"] = [(p["mx%d" % t], "asan", ()) for t in range(0, nt, 2)]
     return out
 
 
@@ -72,7 +86,54 @@ def gen_cases(rng, tier):
                         n_enc[pat] += 1
                         encs = [encs[n_enc[pat] % len(encs)]]
                     for e in encs:
-                        add("box", "ax S:%s I:%d %s %s %s" % (e, n, P(a), P(b), P(c)), "ax")
+                        add("box", "ax S:%s I:%d %s %s %s" % (e, n, P(a), P(b), P(c)), "a")
+    # ---- several axes
+    def draw_part(t, n):
+        if t == "e": return "S:e"
+        if t == "i":
+            v = rng.randint(-n, n - 1) if rng.random() < 0.95 else rng.choice([n, -n - 1])
+            return "S:i,%d" % v
+        ordered = rng.random() < 0.6
+        if ordered:
+            a1 = rng.randint(0, n); b1 = rng.randint(a1, n)
+            a = a1 - n if (a1 < n and rng.random() < 0.4) else a1
+            b = b1 - n if (b1 < n and rng.random() < 0.4) else (b1 + rng.randint(0, 2) if b1 == n else b1)
+            c = rng.choice([1, 1, 2, 3])
+            if rng.random() < 0.1: c = -rng.choice([1, 2, 3])
+        else:
+            a = rng.randint(-(n + 2), n + 2); b = rng.randint(-(n + 2), n + 2); c = rng.choice([-3, -2, -1, 1, 2, 3])
+        f = lambda ch, v: "N" if ch == "N" else "O" if ch == "O" else str(v)
+        return "S:r,%s,%s,%s" % (f(t[0], a), f(t[1], b), f(t[2], c))
+    def draw_shape(dim): return [rng.randint(1, 5) for _ in range(dim)]
+    def parts_line(shape, parts):
+        nf = len(shape) - sum(1 for x in parts if x != "e")
+        toks = []; ax = 0
+        for t in parts:
+            if t == "e": toks.append("S:e"); ax += nf
+            else: toks.append(draw_part(t, shape[ax])); ax += 1
+        return "L:%s %s" % (",".join(map(str, shape)), " ".join(toks))
+    combos = gen_c05.static_combos(tier)
+    nt = gen_c05.n_tus(tier)
+    ndraw = 6 if tier == "quick" else 12
+    for cid, (dim, parts) in enumerate(combos):
+        key = "m" if tier == "quick" else "m%d" % ((cid % nt) // 4)
+        for d in range(ndraw):
+            body = parts_line(draw_shape(dim), parts)
+            add("multi", "mx S:%s S:c%d %s" % ("var" if d % 2 == 0 else "tup", cid, body), key)
+            add("multi", "vw S:%s S:c%d %s" % ("tup" if (d % 2 == 0 and len(parts) >= 2) else "var", cid, body), key)
+    # run-time list encoding: any sequence of integers / ellipsis / ranges of ONE tuple pattern (+ all-int 3-part ranges as arrays)
+    nseq = 40 if tier == "quick" else 150
+    for pat in gen_c05.PATS:
+        for _ in range(nseq):
+            dim = rng.choice([1, 2, 2, 3, 3, 3])
+            has_e = rng.random() < 0.5
+            nf = rng.randint(0, dim) if has_e else 0
+            parts = [("i" if rng.random() < 0.25 else (pat if rng.random() < 0.75 else "iii")) for _ in range(dim - nf)]
+            if has_e: parts.insert(rng.randint(0, len(parts)), "e")
+            if nf + sum(1 for x in parts if x not in ("i", "e")) == 0: continue
+            body = parts_line(draw_shape(dim), parts)
+            add("multi", "mx S:dyn S:%s %s" % (pat, body), "a")
+            add("multi", "vw S:dyn S:%s %s" % (pat, body), "a")
     return out
 
 
@@ -102,6 +163,8 @@ def classify(line, impl, spec, model):
     what the pinned model says (impl == model != python); where the model says the C++ is undefined (float -> int
     conversion out of range) any output is that finding; everything else (impl != model) stays a violation."""
     norm = lambda s: " ".join(s.split())
+    if model == "trap out_of_range" and norm(impl) == model:
+        return "ellipsis-trailing-empty:variadic"
     if model == "ub":
         return "slice-arith-ub:" + case_pattern(line)
     if norm(impl) == norm(model) and norm(model) != norm(spec):
